@@ -20,7 +20,7 @@ RowIdx(kind, n) ==
   CASE kind = "1:"    -> [j \in 1..(IF n > 0 THEN n - 1 ELSE 0) |-> j + 1]
     [] kind = "::2"   -> [j \in 1..((n + 1) \div 2) |-> 2 * j - 1]
     [] kind = "::-1"  -> [j \in 1..n |-> n + 1 - j]
-    [] kind = "mask"  -> [j \in 1..(n \div 2) |-> 2 * j]          \* [False, True, False, ...]
+    [] kind \in {"mask", "listmask"} -> [j \in 1..(n \div 2) |-> 2 * j]          \* [False, True, False, ...] as a NumPy array / as a plain Python list
     [] kind = "fancy" -> IF n = 0 THEN <<>> ELSE <<n, 1, 1>>      \* [-1, 0, 0]
     [] kind = "0:0"   -> <<>>
 \* column selections applied to every row
@@ -45,19 +45,21 @@ CanDo == Len(prog) < MaxDepth
 New(a, op, o) == pool' = Append(pool, a) /\ prog' = Append(prog, op) /\ obs' = o
 Same(op, o) == prog' = Append(prog, op) /\ obs' = o /\ UNCHANGED pool
 
-RowSelect == "rows" \in Ops /\ \E i \in DOMAIN pool : \E kind \in {"1:", "::2", "::-1", "mask", "fancy", "0:0"} :
+RowSelect == "rows" \in Ops /\ \E i \in DOMAIN pool : \E kind \in {"1:", "::2", "::-1", "mask", "listmask", "fancy", "0:0"} :
                Room /\ LET a == pool[i] IN LET idx == RowIdx(kind, Len(a)) IN
                New([j \in DOMAIN idx |-> a[idx[j]]], [op |-> "rows", t |-> i, sel |-> kind], [kind |-> "array"])
 ColSelect == "cols" \in Ops /\ \E i \in DOMAIN pool : \E kind \in {"1:", "::-1", ":-1", "0:1"} \cup (IF Matrix THEN {"cfancy", "cmask"} ELSE {}) :
                Room /\ New([j \in DOMAIN pool[i] |-> ColSel(kind, pool[i][j])], [op |-> "cols", t |-> i, sel |-> kind], [kind |-> "array"])
 Concat    == "concat" \in Ops /\ \E i, k \in DOMAIN pool : Room /\ New(pool[i] \o pool[k], [op |-> "concat", t |-> i, u |-> k], [kind |-> "array"])
+\* np.concatenate of ONE operand: a new array equal to it (an assignment into either leaves the other alone, AssignLocal)
+Concat1   == "concat1" \in Ops /\ \E i \in DOMAIN pool : Room /\ New(pool[i], [op |-> "concat1", t |-> i], [kind |-> "array"])
 Copy      == "copy" \in Ops /\ \E i \in DOMAIN pool : Room /\ New(pool[i], [op |-> "copy", t |-> i], [kind |-> "array"])
 \* observations
 \* (integer row access is only driven on arrays that own their buffer: in the installed numpy/npstructures pair it fails on
 \*  lazily indexed views on the unchanged tree, see DESIGN.md section 5)
-Owns(i) == LET made == IF i = 1 THEN "create" ELSE (CHOOSE k \in DOMAIN prog : prog[k].op \in {"rows", "cols", "concat", "copy"} /\
-                         Cardinality({q \in 1..k : prog[q].op \in {"rows", "cols", "concat", "copy"}}) = i - 1) IN
-           IF i = 1 THEN TRUE ELSE prog[made].op \in {"concat", "copy"}
+Owns(i) == LET made == IF i = 1 THEN "create" ELSE (CHOOSE k \in DOMAIN prog : prog[k].op \in {"rows", "cols", "concat", "concat1", "copy"} /\
+                         Cardinality({q \in 1..k : prog[q].op \in {"rows", "cols", "concat", "concat1", "copy"}}) = i - 1) IN
+           IF i = 1 THEN TRUE ELSE prog[made].op \in {"concat", "concat1", "copy"}
 RowInt    == "row" \in Ops /\ \E i \in DOMAIN pool : \E r \in {1, -1} : CanDo /\ Len(pool[i]) > 0 /\ Owns(i) /\
                Same([op |-> "row", t |-> i, r |-> r], [kind |-> "str", val |-> pool[i][IF r = 1 THEN 1 ELSE Len(pool[i])]])
 ColInt    == "col" \in Ops /\ \E i \in DOMAIN pool : \E c \in {1, -1} : CanDo /\ Len(pool[i]) > 0 /\ (\A j \in DOMAIN pool[i] : pool[i][j] # <<>>) /\
@@ -84,13 +86,13 @@ Ravel     == "ravel" \in Ops /\ \E i \in DOMAIN pool : CanDo /\ Same([op |-> "ra
 \* assignments change the target array only (copies are independent; what views of it show is not prescribed by the list model)
 Fill(r, x) == [q \in DOMAIN r |-> x]
 \* the assigned value is given as a Python string or as an already encoded (base-encoded) array: `form`
-AssignRow  == "setrow" \in Ops /\ \E i \in DOMAIN pool : \E x \in Symbols : \E fm \in {"str", "enc"} : CanDo /\ Len(pool[i]) > 0 /\ prog[Len(prog)].op \in {"copy", "create"} /\ i = Len(pool) /\
+AssignRow  == "setrow" \in Ops /\ \E i \in DOMAIN pool : \E x \in Symbols : \E fm \in {"str", "enc"} : CanDo /\ Len(pool[i]) > 0 /\ prog[Len(prog)].op \in {"copy", "create", "concat1"} /\ i = Len(pool) /\
                pool' = [pool EXCEPT ![i][1] = Fill(@, x)] /\ prog' = Append(prog, [op |-> "setrow", t |-> i, x |-> x, form |-> fm]) /\ obs' = [kind |-> "array"]
-AssignMask == "setmask" \in Ops /\ \E i \in DOMAIN pool : \E x, y \in Symbols : \E fm \in {"str", "enc"} : CanDo /\ x # y /\ prog[Len(prog)].op \in {"copy", "create"} /\ i = Len(pool) /\
+AssignMask == "setmask" \in Ops /\ \E i \in DOMAIN pool : \E x, y \in Symbols : \E fm \in {"str", "enc"} : CanDo /\ x # y /\ prog[Len(prog)].op \in {"copy", "create", "concat1"} /\ i = Len(pool) /\
                pool' = [pool EXCEPT ![i] = [j \in DOMAIN @ |-> [q \in DOMAIN @[j] |-> IF @[j][q] = x THEN y ELSE @[j][q]]]]
                /\ prog' = Append(prog, [op |-> "setmask", t |-> i, x |-> x, y |-> y, form |-> fm]) /\ obs' = [kind |-> "array"]
 
-Next == RowSelect \/ ColSelect \/ Concat \/ Copy \/ RowInt \/ ColInt \/ EqChar \/ EqStr \/ EqArr \/ RSlice \/ Decode_ \/ Ravel \/ AssignRow \/ AssignMask
+Next == RowSelect \/ ColSelect \/ Concat \/ Concat1 \/ Copy \/ RowInt \/ ColInt \/ EqChar \/ EqStr \/ EqArr \/ RSlice \/ Decode_ \/ Ravel \/ AssignRow \/ AssignMask
 Spec == Init /\ [][Next]_vars
 
 \* design invariants: shapes are preserved where NumPy preserves them
